@@ -231,3 +231,33 @@ pub fn crowded(n: u64) {
         let _ = s2;
     }
 }
+
+/// C07 (thorough): a few accepted boards with many men (incl. the tight 18-entry board) through
+/// move generation, status, rendering and move application -- meant to be run under Miri, which
+/// reports any out-of-bounds access of the unchecked code paths as undefined behaviour.
+pub fn miri_cases() {
+    use std::str::FromStr;
+    let fens = [
+        "k7/8/8/2PpP3/8/NNNNNNN1/NNNNNN2/K7 w - d6 0 1",
+        "4k3/8/8/2PpP3/8/PP1P1PPP/8/RNBQKBNR w KQ d6 0 1",
+        "rnbqkbnr/pppppppp/8/8/8/8/PPPPPPPP/RNBQKBNR w KQkq - 0 1",
+        "r3k2r/Pppp1ppp/1b3nbN/nP6/BBP1P3/q4N2/Pp1P2PP/R2Q1RK1 w kq - 0 1",
+    ];
+    let mut total = 0usize;
+    for f in fens.iter() {
+        let b = Board::from_str(f).expect("accepted");
+        let n = MoveGen::new_legal(&b).len();
+        let mut it = MoveGen::new_legal(&b);
+        it.set_iterator_mask(*b.color_combined(!b.side_to_move()));
+        let caps = (&mut it).count();
+        it.set_iterator_mask(!EMPTY);
+        let rest = it.count();
+        assert_eq!(caps + rest, n);
+        let _ = b.status(); let _ = format!("{}", b);
+        for m in MoveGen::new_legal(&b).take(8) { let nb = b.make_move_new(m); let mut o = b; b.make_move(m, &mut o); assert!(o == nb); total += MoveGen::new_legal(&nb).len(); }
+        total += n;
+    }
+    let crowded = Board::from_str("k7/8/PPPPPPPP/8/PPPPPPPP/8/PPPPPPPP/7K w - - 0 1");
+    assert!(crowded.is_err());
+    println!("MIRI-OK {}", total);
+}
